@@ -29,6 +29,10 @@ const FOREIGN: &[&str] = &[
     "#[conf::x]",
     "#[doc(hidden)]",
     "#[zzz(\"lit\", 5)]",
+    "#[a::b(x = 1)]",
+    "#[a::b]",
+    "#[::doc = \"global\"]",
+    "#[ns::cfg::deeper(x)]",
 ];
 
 const MALFORMED: &[&str] = &[" = \"x\"", "(a b)", "(= 3)", " = 5", "(a, , b)", "(a = )", "{a = 1}", "[a]", "(a(b c))", "(1 = 2)", "(a = 1 b = 2)"];
